@@ -752,8 +752,21 @@ def rekey_oracle(case, got):
 SECTIONS = {}
 
 
+def translation_tie(rep):
+    """Is the shape translated from trace_codes.py the one the model of from_trace_codes_text was written for?  Switches
+    the mirror sections `codes*-ir` on (the generated shape under the interpreter against CPython)."""
+    ans = core.drive(['tcircheck'])[0]
+    if ans == 'same':
+        rep.notes.append('translation tie: Gen/PyIRTc (from trace_codes.py) = PyIRTc.expected')
+    else:
+        rep.broken.append('theorem source_is_expected_shape: the shape that tools/gen_pyir_tc.py reads from the source text of '
+                          'from_trace_codes_text is not the one from_trace_codes_text_ir_eq_model is proved for (%s)' % ans[:600])
+    rep.mirror = {'codes': 'tcir'}
+
+
 def correspondence(rep, rng, tier):
     big = tier != 'quick'
+    translation_tie(rep)
     check_uclass(rep)
     k = 50 if big else 1
 
@@ -861,7 +874,10 @@ LEVEL_TEXT = ('Lean theorems over executable models of str.splitlines / str.spli
               'from_trace_codes_text (parse_render for all entry lists of the grammar, nothing_else, error theorems), '
               'of the name column and of the feed / parse_event_list gate on top of the pairing model '
               '(unknown_id_bare_hex, known_id_named, unknown_id_not_decoded, decoded_under_any_id); the Unicode '
-              'classes are reflected from the interpreter and compared with it for every code point on each run.')
+              'classes are reflected from the interpreter and compared with it for every code point on each run.  '
+              'TRANSLATION TIE: the source text of from_trace_codes_text is read (tools/gen_pyir_tc.py, pure ast) as a shape '
+              '(lines by splitlines(), tokens by split(), key int(s[0], 16) first, value s[1]); source_is_expected_shape and '
+              'from_trace_codes_text_ir_eq_model: that shape, interpreted, is parseCodes for every text.')
 LEVEL_NOTE = ('Trusted: Lean kernel, reflection of the Unicode classes and handler-name sets, correspondence harness; '
               'CPython string primitives are modelled, not verified; the handlers called after the gate are outside C19.')
-TECHNIQUE = 'Lean 4 proof over reflected tables + differential correspondence'
+TECHNIQUE = 'Lean 4 proof over reflected tables + translation validation of from_trace_codes_text + differential correspondence'
